@@ -80,4 +80,13 @@ CHECKS = {
             dict(name="TestC08Verdict", quick=dict(checks=4000, timeout=600), thorough=dict(checks=40000, shards=8, timeout=3000)),
             dict(name="TestC08E2E", quick=dict(checks=400, timeout=600), thorough=dict(checks=4000, shards=8, timeout=3000)),
         ]),
+    "C05": dict(
+        pkg="c05", level="exploration",
+        technique="property-based testing (rapid): metamorphic relation (any partition of the lines into servers x files x partial transmissions gives the single-partition result) over the real server and client aggregators, plus an independent reference evaluator of the query language on the restricted domain",
+        level_text="Generated tables in the three log formats and grammar-generated queries run through the real server-side aggregators (one per simulated server, several files, forced partial transmissions) and the real client-side re-aggregation and CSV writer, without transport; the result is compared with the single-partition run of the same code and, on tables where dtail's semantics are unambiguous, with an independent central evaluator (rows as a multiset, tolerance for float sums, any valid top-k under limit, any group value for last/len).",
+        level_note="Transport and the client-chosen table regex are covered end to end by C06/C15 runs of the dmap binary. NaN/Inf tokens, the aggregate-message delimiter runes and ',' in values are outside the domain. Order direction (order = descending) is taken from the repository's own expected outputs.",
+        tests=[
+            dict(name="TestC05Clean", quick=dict(checks=250, shards=8, timeout=900), thorough=dict(checks=2500, shards=12, timeout=3000)),
+            dict(name="TestC05Wide", quick=dict(checks=250, shards=8, timeout=900), thorough=dict(checks=2500, shards=4, timeout=3000)),
+        ]),
 }
